@@ -37,6 +37,9 @@ pub enum WP {
     /// before this message a read on the layer object hits the end of the inbound stream (the peer half-closed; the
     /// outbound direction still accepts)
     AfterReadEof,
+    /// before this message the layer object reads one inbound frame of this kind (index into INBOUND): whatever the peer
+    /// said, and whether the read succeeded or was refused, what the caller sends next goes out as one exact frame
+    AfterInbound(u8),
 }
 
 #[derive(Clone, Debug, Serialize)]
@@ -73,6 +76,23 @@ const ERR_KINDS: [std::io::ErrorKind; 10] = [
     std::io::ErrorKind::WriteZero,
     std::io::ErrorKind::PermissionDenied,
 ];
+
+/// inbound frames for WP::AfterInbound: X.224 disconnect request, error, connection confirm, expedited data, a data TPDU
+/// with payload, a data TPDU without payload, a fast-path frame, a TPKT body of one byte, an empty TPKT frame
+fn inbound(k: u8) -> Vec<u8> {
+    match k {
+        0 => framing::tpkt(&[0x06, 0x80, 0, 0, 0, 0, 0]),
+        1 => framing::tpkt(&[0x04, 0x70, 0, 0, 0]),
+        2 => framing::tpkt(&[0x06, 0xD0, 0, 0, 0x12, 0x34, 0]),
+        3 => framing::tpkt(&[0x02, 0x10, 0x80, 1, 2, 3]),
+        4 => framing::tpkt(&framing::x224_dt(&[9, 8, 7, 6, 5])),
+        5 => framing::tpkt(&framing::x224_dt(&[])),
+        6 => framing::fastpath(0, &[1, 2, 3], false),
+        7 => framing::tpkt(&[0x80]),
+        _ => framing::tpkt(&[]),
+    }
+}
+const N_INBOUND: u8 = 9;
 
 fn payload(n: usize) -> Vec<u8> {
     (0..n).map(|i| ((i as u32 * 13 + 5) & 0xff) as u8).collect()
@@ -161,6 +181,21 @@ impl Prop for C14 {
                     cs.push(Case { layer, len, plan: pre.clone(), then: vec![(5, WP::All)] });
                     cs.push(Case { layer, len, plan: WP::All, then: vec![(7, pre.clone()), (9, pre.clone())] });
                 }
+            }
+        }
+        // C2b: a message, one inbound frame of each kind read on the same object (accepted or refused), another message
+        for layer in [Layer::Tpkt, Layer::Link, Layer::X224] {
+            for k in 0..N_INBOUND {
+                for len in [0usize, 1, 40] {
+                    cs.push(Case { layer, len, plan: WP::All, then: vec![(len + 3, WP::AfterInbound(k)), (2, WP::All)] });
+                    cs.push(Case { layer, len, plan: WP::AfterInbound(k), then: vec![(5, WP::Cap(2)), (len, WP::AfterInbound((k + 1) % N_INBOUND))] });
+                }
+            }
+        }
+        // C3: long runs on one layer object: 300 and 70 000 messages of 0..49 bytes, accepted whole / 3 bytes per write
+        for layer in [Layer::Tpkt, Layer::X224, Layer::Link] {
+            for n in [300usize, 70_000] {
+                cs.push(Case { layer, len: 1, plan: WP::All, then: (0..n).map(|i| (i % 50, if n == 300 && i % 2 == 1 { WP::Cap(3) } else { WP::All })).collect() });
             }
         }
         // D: zero-then-progress
@@ -254,6 +289,22 @@ impl Prop for C14 {
                 }
             }
         }
+        // H2: over-long messages inside sequences on one layer object: an ordinary message after a refused over-long one
+        // is exact; a message L + 65536 bytes long after one of L bytes (same low 16 bits) is refused; and back again
+        for layer in [Layer::Tpkt, Layer::X224] {
+            let m = max_len(layer);
+            for l in [0usize, 1, 4, 5, 300, 3000, 4464] {
+                cs.push(Case { layer, len: l, plan: WP::All, then: vec![(l + 65536, WP::All), (l, WP::All)] });
+                cs.push(Case { layer, len: l + 65536, plan: WP::All, then: vec![(l, WP::All), (l + 65536, WP::All)] });
+                cs.push(Case { layer, len: l, plan: WP::All, then: vec![(l + 65532, WP::All), (l + 65529, WP::All), (l, WP::Cap(3))] });
+            }
+            for big in [m + 1, m + 2, m + 4, m + 7, 65535, 65536, 65537, 70000, 131072, 200000] {
+                for small in [0usize, 1, 7, 300, m] {
+                    cs.push(Case { layer, len: big, plan: WP::All, then: vec![(small, WP::All)] });
+                    cs.push(Case { layer, len: small, plan: WP::All, then: vec![(big, WP::All), (small, WP::All), (big, WP::All), (small + 1, WP::Cap(2))] });
+                }
+            }
+        }
         self.cases = cs;
         Ok(())
     }
@@ -264,7 +315,7 @@ impl Prop for C14 {
         json!({"idx": idx, "case": self.cases[idx as usize]})
     }
     fn rule(&self) -> String {
-        "cases = (layer in {tpkt, x224, link}, payload length, write behaviour of the stream); lengths 0..70000 all enumerated on an accepting stream; structured messages (every one-field and several three-field shapes of the C18 message model: size-dependent, skippable, optional, nested fields) framed by tpkt::Client::write; short-write caps {1,2,3,4,5,7,8,1024} for every length <= 300 and every 16-bit boundary length; every composition of write sizes for frames <= 12 bytes; zero-length writes; an error injected at every byte position for lengths <= 64 and boundary lengths; EINTR once; one transient error of 10 kinds (WouldBlock, TimedOut, ConnectionReset, ConnectionAborted, BrokenPipe, NotConnected, UnexpectedEof, WriteZero, PermissionDenied, Other) at every byte position after which the stream accepts again; sequences of 2 (3 in thorough) messages on the same layer object, the first one meeting an error before its first byte / after one byte / in mid-frame / on its last byte, one-byte writes, a zero-length write or EINTR, the later ones judged like a first message; a message written after shutdown() or after a read that hit the end of the inbound stream (raw link: the outbound direction still accepts, the frame must go out); plus 18 full real conversations over TLS (NLA on/off) with a transport accepting k bytes per write, k in {1,2,3,5,7,16,1024}, an irregular size sequence, and EINTR. Non-trivial: the stream deviates from accepting everything, or the length is within 8 of a 7/14/15/16-bit boundary or above the frame limit.".into()
+        "cases = (layer in {tpkt, x224, link}, payload length, write behaviour of the stream); lengths 0..70000 all enumerated on an accepting stream; structured messages (every one-field and several three-field shapes of the C18 message model: size-dependent, skippable, optional, nested fields) framed by tpkt::Client::write; short-write caps {1,2,3,4,5,7,8,1024} for every length <= 300 and every 16-bit boundary length; every composition of write sizes for frames <= 12 bytes; zero-length writes; an error injected at every byte position for lengths <= 64 and boundary lengths; EINTR once; one transient error of 10 kinds (WouldBlock, TimedOut, ConnectionReset, ConnectionAborted, BrokenPipe, NotConnected, UnexpectedEof, WriteZero, PermissionDenied, Other) at every byte position after which the stream accepts again; sequences of 2 (3 in thorough) messages on the same layer object, the first one meeting an error before its first byte / after one byte / in mid-frame / on its last byte, one-byte writes, a zero-length write or EINTR, the later ones judged like a first message; runs of 300 and 70 000 messages on one layer object; over-long messages (limit + 1 .. 200000, and L + 65536 after L) before, between and after ordinary ones on one layer object; a message written after one inbound frame of nine kinds was read on the same object (X.224 disconnect request / error / connection confirm / expedited data, data TPDUs, a fast-path frame, one-byte and empty TPKT bodies), after shutdown() or after a read that hit the end of the inbound stream (raw link: the outbound direction still accepts, the frame must go out); plus 18 full real conversations over TLS (NLA on/off) with a transport accepting k bytes per write, k in {1,2,3,5,7,16,1024}, an irregular size sequence, and EINTR. Non-trivial: the stream deviates from accepting everything, or the length is within 8 of a 7/14/15/16-bit boundary or above the frame limit.".into()
     }
     fn assumptions(&self) -> Vec<String> {
         vec![
@@ -280,7 +331,7 @@ impl Prop for C14 {
         }
     }
     fn run_case(&mut self, idx: u64) -> Outcome {
-        let c = self.cases[idx as usize].clone();
+        let c = crate::alloc::exempt(|| self.cases[idx as usize].clone());
         if c.layer == Layer::Conversation {
             let nla = c.len == 1;
             let wp = match &c.plan {
@@ -338,8 +389,11 @@ impl Prop for C14 {
             Layer::X224 => Obj::X(x224::Client::verif_new_raw(tpkt::Client::new(l), x224::Protocols::ProtocolSSL)),
             Layer::Conversation | Layer::TpktStructured => unreachable!(),
         };
-        let mut msgs = vec![(c.len, c.plan.clone())];
-        msgs.extend(c.then.iter().cloned());
+        let msgs = crate::alloc::exempt(|| {
+            let mut msgs = vec![(c.len, c.plan.clone())];
+            msgs.extend(c.then.iter().cloned());
+            msgs
+        });
         let n_msgs = msgs.len();
         let mut last = Outcome::pass("empty", false);
         for (mi, (len, plan)) in msgs.into_iter().enumerate() {
@@ -356,7 +410,7 @@ impl Prop for C14 {
                     WP::ErrAt(pos, cap) => WritePlan::ErrAt { pos: start + *pos, cap: *cap },
                     WP::Interrupted(k) => WritePlan::InterruptedAt(*k),
                     WP::ErrOnce(pos, kind) => WritePlan::ErrOnceAt { pos: start + *pos, kind: ERR_KINDS[*kind as usize % ERR_KINDS.len()] },
-                    WP::AfterShutdown | WP::AfterReadEof => WritePlan::All,
+                    WP::AfterShutdown | WP::AfterReadEof | WP::AfterInbound(_) => WritePlan::All,
                 };
             }
             match (&plan, &mut obj) {
@@ -369,6 +423,15 @@ impl Prop for C14 {
                 }
                 (WP::AfterReadEof, Obj::T(t)) => drop(t.read()),
                 (WP::AfterReadEof, Obj::X(x)) => drop(x.read()),
+                (WP::AfterInbound(k), o) => {
+                    crate::alloc::exempt(|| sh.borrow_mut().push_to_client(&inbound(*k)));
+                    match o {
+                        Obj::L(l) => drop(l.read(4)),
+                        Obj::T(t) => drop(t.read()),
+                        Obj::X(x) => drop(x.read()),
+                    }
+                    crate::alloc::exempt(|| sh.borrow_mut().to_client.clear());
+                }
                 _ => {}
             }
             let start = sh.borrow().from_client.len();
